@@ -22,6 +22,7 @@ import (
 	"math"
 	"math/rand/v2"
 	"sort"
+	"strconv"
 	"strings"
 	"time"
 
@@ -111,8 +112,18 @@ func probItems(seed uint64, n int) (added, never []string) {
 	return
 }
 
+// probFaults adds connection faults to 35% of the plans (variant "nofault": none; variant "deadline": always, plus
+// call deadlines).
+//
+// Call deadlines are NOT part of the registered plans: rueidisprob builds its index arguments as rueidis.BinaryString
+// views of a pooled buffer and returns the buffer to the pool (which zeroes it) when the call returns; a call whose
+// context ends while its command is still queued behind a blocked write therefore lets the command go out later with
+// zeroed - or, once the sync.Pool hands the buffer to another call, overwritten - arguments. What the server then
+// receives depends on sync.Pool (per-P caches, GC), which no seed controls, so such runs do not replay. Variant
+// "deadline" exists to show exactly that (rule arguments-changed-after-return) and is not a registered part.
 func probFaults(r *rand.Rand, p *ProbPlan) {
-	if r.IntN(100) >= 35 {
+	deadlines := p.Variant == "deadline"
+	if p.Variant == "nofault" || (!deadlines && r.IntN(100) >= 35) {
 		return
 	}
 	for i, n := 0, 1+r.IntN(2); i < n; i++ {
@@ -120,10 +131,15 @@ func probFaults(r *rand.Rand, p *ProbPlan) {
 			AtStep: r.IntN(120), Pick: r.IntN(4), DurMs: pick(r, 200, 2000, 30000)})
 	}
 	p.SendBuf = pick(r, 0, 0, 64, 1024)
+	if !deadlines {
+		return
+	}
+	p.SendBuf = pick(r, 64, 256)
+	p.Faults = append(p.Faults, ProbFault{Kind: "stall", AtStep: r.IntN(60), Pick: r.IntN(4), DurMs: pick(r, 1000, 3000)})
 	for ti := range p.Tasks {
 		for ci := range p.Tasks[ti] {
-			if r.IntN(4) == 0 {
-				p.Tasks[ti][ci].TimeoutMs = pick(r, 50, 500, 5000)
+			if r.IntN(3) == 0 {
+				p.Tasks[ti][ci].TimeoutMs = pick(r, 50, 500)
 			}
 		}
 	}
@@ -191,8 +207,11 @@ func startProb(p *ProbPlan, out *Outcome, prop string, build func(pr *probRun, c
 	rr := e.background("setup", func(ctx context.Context) {
 		for i := 0; i < p.Clients; i++ {
 			opt := e.option()
+			// one multiplexed wire per client (the default of simEnv.option): with several wires every command draws its
+			// wire from util.FastRand, and the verif seam hands out values from one shared counter, so two tasks woken by
+			// the same delivery (two NOSCRIPT replies in one read) would draw in an order the Go runtime chooses
 			if p.Multiplex > 0 {
-				opt.PipelineMultiplex = p.Multiplex
+				opt.PipelineMultiplex = p.Multiplex // replay of hand-written plans only; generated plans leave it at 0
 			}
 			opt.DisableCache = true
 			// small queues and buffers: the defaults (1024 slots, 0.5 MB buffers per connection) cost more to allocate
@@ -351,6 +370,7 @@ func (pr *probRun) finishProb() {
 			pr.calls = append(pr.calls, pc)
 		}
 	}
+	pr.checkArguments()
 	// NOSCRIPT for a script the server had already run: the ghost's SCRIPT FLUSH made the client fall back to EVAL
 	ran := map[string]bool{}
 	for _, ex := range e.sim.W.Log {
@@ -361,6 +381,42 @@ func (pr *probRun) finishProb() {
 			} else if ran[sha] && ex.Reply.IsErr() && strings.HasPrefix(ex.Reply.S, "NOSCRIPT") {
 				pr.out.probe("noscript-after-script-flush")
 				break
+			}
+		}
+	}
+}
+
+// checkArguments looks at the index arguments of every script call and HMGET the server received: the client builds
+// them as decimal numbers. Anything else means that the argument memory changed between the call and the write. This
+// is reported in variant "deadline" only (see probFaults); elsewhere it would be harness trouble to look into.
+func (pr *probRun) checkArguments() {
+	for _, ex := range pr.e.sim.W.Log {
+		if len(ex.Argv) < 3 {
+			continue
+		}
+		var args []string
+		switch name := strings.ToUpper(ex.Argv[0]); {
+		case strings.HasPrefix(name, "EVAL"):
+			nk, err := strconv.Atoi(ex.Argv[2])
+			if err != nil || 3+nk > len(ex.Argv) {
+				continue
+			}
+			args = ex.Argv[3+nk:]
+		case name == "HMGET":
+			args = ex.Argv[2:]
+		default:
+			continue
+		}
+		for _, a := range args {
+			if _, err := strconv.ParseUint(a, 10, 64); err != nil {
+				pr.out.probe("server-received-non-numeric-index")
+				msg := fmt.Sprintf("%s: the server received %s (command %d of its log, connection c%d) with index argument %q; arguments %.120q", pr.label, ex.Argv[0], ex.Seq, ex.Conn, a, args)
+				if pr.p.Variant == "deadline" {
+					pr.out.violate(pr.prop, "arguments-changed-after-return", "%s", msg)
+				} else if pr.out.HarnessErr == "" {
+					pr.out.HarnessErr = "unexpected: " + msg
+				}
+				return
 			}
 		}
 	}
